@@ -289,6 +289,8 @@ def check_injection(chk):
             ok = any(any(c == f'{nm} not in {g}' for nm in names for g in galias) for c in conds)
             if ok and len(conds) == 1:
                 chk.ok('C04.I', f'library injection filtered by membership: {conds[0]}')
+            elif len(conds) == 1 and any(conds[0].startswith(f'{nm} not in ') for nm in names):
+                chk.unrec('C04.I', f'library injection is filtered by the membership test `{conds[0]}`, but the tested object is not recognised as the caller-supplied globals', mod.rel)
             else:
                 chk.bad('C04.I', mod, 'execute_script', f'injection filter {conds}',
                         'library functions must be added only for names that are not members of the caller-supplied globals (a membership test; testing the value, e.g. '
